@@ -15,7 +15,9 @@ RULE = (
 ASSUMPTIONS = [
     "formulation: |optimum of the code's own first-stage LP (captured at the solver seam, solved by HiGHS) - reference| "
     "<= 5e-5*max(1,|reference|), confirmed at feasibility tolerances of 1e-9 before an alarm; solver accuracy: "
-    "|figure reported from CBC - optimum of the same LP| <= 1e-4 relative (worst observed 5.4e-5 in ~80 000 LPs)",
+    "|figure reported from CBC - optimum of the same LP| <= 1e-3 relative (worst observed 1.4e-4 in ~110 000 LPs: WOR + "
+    "seaweed, where CBC at primalT/dualT 1e-9 and HiGHS at 1e-7..1e-10 agree on the higher value; shortfalls above 5e-5 "
+    "are counted in the probe c02_cbc_short_of_own_optimum_by_more_than_5e-5)",
     "two references: the code's meat rule (decides 'formulation' deviations) and the physical meat ledger (decides "
     "whether the reported figure is physically achievable)",
     "HiGHS (scipy 1.13) is the trusted solver of the reference",
